@@ -93,7 +93,9 @@ static Result run_c06(const Case &c) {
         free(prl); free(pxl); free(pol);
         r.cls("previous_query_same_union");
     }
+    errno = (int)c.get("errno_in", 0);          // what an earlier, unrelated call on this thread may have left behind
     int rc = liberasurecode_fragments_needed(cx.in->desc, rl, xl, out);
+    errno = 0;
     sib.reset();
     for (size_t i = 0; i < R.size(); i++) if (rl[i] != R[i]) r.fail("fragments_to_reconstruct list modified");
     for (size_t i = 0; i < Xpass.size(); i++) if (xl[i] != Xpass[i]) r.fail("fragments_to_exclude list modified");
@@ -175,6 +177,7 @@ static void emit(const Config &g, const std::vector<int> &R, const std::vector<i
     if ((++emitted % 4) == 0) { c.set("sib", emitted / 4 * 8 + (emitted / 4) % 8); c.set("sib_keep", (emitted / 4) & 1); }
     if ((emitted % 3) == 1) c.set("prevq", 1 + (emitted / 3) % 4);
     if ((emitted % 5) >= 3) c.set("overlap", 1 + emitted % 255);
+    if ((emitted % 7) == 2) c.set("errno_in", (emitted % 14 == 2) ? 12 : 22);
     sweep_case(c, run_c06_nt);
 }
 // all disjoint (R != {}, X) with |R|+|X| <= limit, both list orders
@@ -251,6 +254,7 @@ static Case gen_c06() {
     if (coin(1, 3)) { c.set("sib", pick(0, 1 << 12)); c.set("sib_keep", coin() ? 1 : 0); }
     if (coin(1, 3)) c.set("prevq", pick(1, 4));
     if (coin(1, 3)) c.set("overlap", pick(1, 255));
+    if (coin(1, 4)) { static const int es[] = {12 /* ENOMEM */, 22 /* EINVAL */, 34 /* ERANGE */, 2 /* ENOENT */, 11 /* EAGAIN */, 4 /* EINTR */}; c.set("errno_in", es[pick(0, 5)]); }
     return c;
 }
 
